@@ -61,15 +61,15 @@ def analyze_accumulator(in_model, x, verbose=False):
      inputs have a distribution given by the dictionary x.
 
      for each output channel i:
-       max_positive_value[i] = sum(w[i]) + bias[i] for the positive weights
-       max_negative_value[i] = sum(w[i]) + bias[i] for the negative weights
+       max_positive_value[i] = sum(w[i]) for the positive weights
+       max_negative_value[i] = sum(w[i]) for the negative weights
 
      max_value = max(
             max_positive_value[i] * positive(x) +
-            max_negative_value[i] * negative(x),
+            max_negative_value[i] * negative(x) + bias[i],
 
          - (max_negative_value[i] * positive(x) +
-            max_positive_value[i] * negative(x))
+            max_positive_value[i] * negative(x) + bias[i])
      )
 
      accumulator_size = ceil( log2( max_value ) )
@@ -117,20 +117,21 @@ def analyze_accumulator(in_model, x, verbose=False):
       # output channels are the last axis of the kernel
       for i in range(k.shape[-1]):
         # compute sum of positive weights
-        npp = np.sum(k[..., i] * (k[..., i] > 0)) + (b[i] > 0) * b[i]
+        npp = np.sum(k[..., i] * (k[..., i] > 0))
 
         # compute sum of negative weights
-        nnn = np.sum(k[..., i] * (k[..., i] < 0)) + (b[i] < 0) * b[i]
+        nnn = np.sum(k[..., i] * (k[..., i] < 0))
 
         # largest value is
         #   npp * largest positive - nnn * largest_negative or
         #   nnn * largest_positive - npp * largest_negative
+        # the bias is not multiplied by the input: it is added afterwards
 
         x_min = x[layer.name][0]
         x_max = x[layer.name][1]
 
-        n1 = npp * (x_max > 0) * x_max + nnn * (x_min < 0) * x_min
-        n0 = - (nnn * (x_max > 0) * x_max + npp * (x_min < 0) * x_min)
+        n1 = npp * (x_max > 0) * x_max + nnn * (x_min < 0) * x_min + b[i]
+        n0 = - (nnn * (x_max > 0) * x_max + npp * (x_min < 0) * x_min + b[i])
 
         if n1 > n0:
           nbits.append(n1)
